@@ -279,6 +279,21 @@ func (w *World) checkQuiescentInvariants() {
 			// the view may already have advanced within the same step only through registrations, which are checked separately
 		}
 		n.lastSample, n.lastSampleEpoch = cur, n.epoch
+		// the node announces every round it starts: once it is settled, the height it reports is the height of the
+		// last round it announced (a height entered without a round means messages of that height meet the term of
+		// another one)
+		if w.checks("C13") && !n.shuttingDown && n.settled() && n.mainParked == nil && len(n.pendingSyncs) == 0 {
+			var last *newRoundRec
+			for i := len(n.obs.newRounds) - 1; i >= 0; i-- {
+				if n.obs.newRounds[i].epoch == n.epoch {
+					last = &n.obs.newRounds[i]
+					break
+				}
+			}
+			if last != nil && cur.h != last.height {
+				w.violate("C13", "height-without-round", "n%d reports height %d while the last round it announced is for height %d", n.idx, cur.h, last.height)
+			}
+		}
 		// snapshots taken by a concurrent consumer thread: the state only moves forward, so a snapshot lies between the
 		// state at the moment the call was started and the state at the first quiescent point after it returned
 		for _, r := range n.samples {
